@@ -232,6 +232,11 @@ def c01(ctx):
     mc_vm(ctx, "refine", cap_texts(sample, hi_cap=3 if quick else 4))
     # (2) the binding: every (program, text) of the scope through the real code
     ctx.replay("C01-exhaustive", cases, FIELDS["C01"])
+    # (2b) seeded random programs beyond the structured scope (any nesting up to 9 nodes)
+    rc = random_cases(ctx.seed, 400 if quick else 4000, with_caps=False)
+    rexps, _ = vm_oracle(ctx, "random", rc, max_steps=300000, invariants=("MatchWF", "NoStuck", "StepBound"))
+    ctx.replay("C01-seeded-random", rc, FIELDS["C01"], exps=rexps)
+    ctx.exhaustive = False
     # (3) the binding at step level: recorded engine runs are behaviours of VM.tla
     tsample = [c for c in cases if c["id"] % (23 if quick else 5) == 0]
     res = validate_vm_traces(ctx, "c01", expand_texts(cap_texts(tsample), 30 if quick else 60, ctx.seed))
@@ -256,6 +261,10 @@ def c02(ctx):
     ctx.technique = "TLC-evaluated bindings of the successful path (spec/Semantics.tla) replayed into Compile/Run"
     cases = ctx.gen_cases("C02")
     ctx.replay("C02-exhaustive", cases, FIELDS["C02"])
+    rc = random_cases(ctx.seed + 7919, 400 if ctx.tier == "quick" else 4000, with_caps=True)
+    rexps, _ = vm_oracle(ctx, "random", rc, max_steps=300000, invariants=("MatchWF", "NoStuck", "StepBound"))
+    ctx.replay("C02-seeded-random", rc, FIELDS["C02"], exps=rexps)
+    ctx.exhaustive = False
     # bindings scoped by named loops (per-iteration maps, abandoned iterations)
     ctx.replay("C02-named-loops", ctx.gen_cases("C02N"), FIELDS["C02"])
 
@@ -571,6 +580,9 @@ def c13(ctx):
     n = check_spellings(ctx, cases, exps)
     ctx.diagnostics["spelling_groups_equal_on_spec"] = n
     ctx.replay("C13-spellings", cases, FIELDS["C13"], reject_violation=True, exps=exps)
+    # global patterns that contain calls, predicates and other globals, referenced 1-2 times
+    gl = [c for c in ctx.gen_cases("C01") if c.get("defs")]
+    ctx.replay("C13-globals", gl if not quick else [c for c in gl if c["id"] % 2 == 0], FIELDS["C13"], reject_violation=True)
     # the relocation of stored global code, on the specification: every command of every program
     vmcases = []
     for c in cases:
@@ -585,9 +597,9 @@ def c13(ctx):
           what="VM(Codegen(spelling)) refines Semantics for subroutine and global spellings (relocation by Adjust), every command of multi-command programs")
     session_histories(ctx)
     if not quick:
-        glob = [c for c in vmcases if c["spelling"] == 2 and any("sub" in json.dumps(c["defs"]) for _ in [0])]
-        mc_vm(ctx, "sens-AdjustKeepsSubId", cap_texts(glob or vmcases, hi_cap=3, first_cmd_only=False),
-              dev=["AdjustKeepsSubId"], expect="RefinesSemantics")
+        # sensitivity: a global pattern with an inner subroutine, relocated, with the historical Adjust
+        g1 = [c for c in ctx.gen_cases("C01") if c.get("defs") and '"k": "sub"' in json.dumps(c["defs"])]
+        mc_vm(ctx, "sens-AdjustKeepsSubId", cap_texts(g1, hi_cap=3), dev=["AdjustKeepsSubId"], expect="RefinesSemantics")
 
 
 def vm_oracle(ctx, name, cases, max_steps=20000, workers=None, timeout=900,
@@ -610,7 +622,9 @@ def vm_oracle(ctx, name, cases, max_steps=20000, workers=None, timeout=900,
                                                "noret": False, "steps": r["steps"]})
     exps = [{"id": i, "r": rs} for i, rs in by_id.items()]
     ctx.add_mc("VM:" + name, st, "every behaviour of the engine model over the scope reaches `done` within MaxSteps=%d instructions "
-               "(StepBound), never gets stuck (NoStuck), reports well-formed matches (MatchWF) equal to the reference semantics" % max_steps)
+               "(StepBound), never gets stuck (NoStuck), reports well-formed matches (MatchWF)%s" % (
+                   max_steps, " equal to the reference semantics" if "RefinesSemantics" in invariants else
+                   "; the model (checked to refine the reference semantics on the structured scopes) is the oracle here"))
     return exps, st
 
 
@@ -635,7 +649,7 @@ def c09(ctx):
           what="NoStuck/StepBound/MatchWF in every state of the engine model over the crash scope (incl. the empty text)")
     ctx.replay("C09-core", cases, FIELDS["C09"], mode="both")
     c2 = ctx.gen_cases("C02")
-    ctx.replay("C09-captures-files", [c for c in c2 if quick and c["id"] % 3 == 0 or not quick], FIELDS["C09"], mode="both")
+    ctx.replay("C09-captures-files", c2, FIELDS["C09"], mode="both")
     pc = ctx.gen_cases("C09P")
     ctx.replay("C09-process", pc, FIELDS["C09"])
 
@@ -1096,6 +1110,8 @@ def c17_cases():
         [repl([{"k": "or", "l": lit(b'"'), "r": lit(b"\\")}], [{"k": "name", "name": "nothing"}])],
         [find([lit(b"a")]), repl([cap("q", lit(b"a"))], [{"k": "name", "name": "q"}, {"k": "name", "name": "q"}])],
         [find([lit(b"zzz")])],
+        [repl([lit(b"a")], [{"k": "str", "s": []}])],                      # the empty replacement is a replacement
+        [repl([cap("q", anyc)], [{"k": "name", "name": "q"}, {"k": "str", "s": []}, {"k": "name", "name": "matchNumber"}])],
     ]
     cases = [{"id": i + 1, "cmds": p, "texts": texts} for i, p in enumerate(progs)]
     rel = [
@@ -1226,9 +1242,12 @@ def session_histories(ctx):
                                      "body": {"k": "cap", "name": "x", "body": {"k": "seq", "es": [{"k": "in", "neg": False, "items": [la, lb]}]}}},
                                     {"k": "loop", "min": 0, "max": 1, "few": False, "name": "", "body": {"k": "ref", "name": "x"}}])]}
     texts = [list(b"abba b"), list(b"aab")]
-    for c in (src0, src1):
+    grp = lambda es: {"k": "seq", "es": es}
+    capn = lambda name, e: grp([{"k": "cap", "name": name, "body": grp([e])}])
+    src2 = {"id": 3, "cmds": [find([grp([capn("_1", la), capn("_2", lb)])])], "srcbytes": list(b"find all @/(a)(b)/")}
+    for c in (src0, src1, src2):
         c["texts"] = texts
-    exps, st = vlib.eval_cases(ctx.scratch, [src0, src1])
+    exps, st = vlib.eval_cases(ctx.scratch, [src0, src1, src2])
     ctx.states += st["distinct"]
     ctx.transitions += st["states"]
     expect = {}
@@ -1237,21 +1256,22 @@ def session_histories(ctx):
         for ti, r in enumerate(doc["r"]):
             expect["%d,%d" % (doc["id"] - 1, ti)] = r["ms"]
     srcs = []
-    for c in (src0, src1):
+    for c in (src0, src1, src2):
         p = subprocess.run([ctx.get_harness(), "render"], input=json.dumps(c), capture_output=True, text=True)
         srcs.append(p.stdout.strip())
+    srcs.append("find all @/(a)(b/ 'x'")          # source 3: rejected after two regex groups were opened
     d = ctx.scratch.sub("hist")
     n = 4 if ctx.tier == "quick" else 5
-    out, sth = vlib.run_tlc(d, "Histories", "SPECIFICATION Spec\nCONSTANTS NSrc = 2\nNText = 2\nMaxLen = %d\nINVARIANTS RunsWellFormed Emit\nCHECK_DEADLOCK FALSE\n" % n,
+    out, sth = vlib.run_tlc(d, "Histories", "SPECIFICATION Spec\nCONSTANTS NSrc = 4\nNText = 2\nMaxLen = %d\nFailSrc = 3\nINVARIANTS RunsWellFormed Emit\nCHECK_DEADLOCK FALSE\n" % n,
                             workers=4, timeout=600, heap="2g")
     if not sth["ok"]:
         raise Undecided("Histories.tla failed:\n" + vlib.tlc_error_excerpt(out))
-    ctx.add_mc("Histories", sth, "all histories of <= %d Compile/Run calls over 2 sources x 2 texts" % n)
+    ctx.add_mc("Histories", sth, "all histories of <= %d Compile/Run calls over 3 sources (one with regex groups) + 1 rejected source x 2 texts" % n)
     ip, rp = os.path.join(d, "in.ndjson"), os.path.join(d, "report.json")
     with open(ip, "w") as f:
         for k, doc in enumerate(vlib.tlc_json_lines(out)):
             h = json.loads(doc)
-            h.update({"id": k + 1, "srcs": srcs, "texts": texts, "expect": expect})
+            h.update({"id": k + 1, "srcs": srcs, "texts": texts, "expect": expect, "failsrc": 3})
             f.write(json.dumps(h, separators=(",", ":")) + "\n")
     p = subprocess.run([ctx.get_harness(), "session", "-in", ip, "-report", rp], capture_output=True, text=True, timeout=900)
     if p.returncode != 0 or not os.path.exists(rp):
@@ -1335,3 +1355,137 @@ def c19(ctx):
     ctx.exhaustive = False
     # repeated Compile/Run histories (sequential independence)
     session_histories(ctx)
+
+
+# ------------------------------------------------ seeded random programs
+def random_cases(seed, n, max_nodes=9, ntexts=14, maxlen=8, with_caps=True):
+    """Seeded generator of well-formed programs beyond the structured scopes
+    (any nesting of the modelled constructs up to max_nodes), each with texts
+    biased to near-matches: strings over the program's alphabet."""
+    import random
+    rnd = random.Random(seed)
+    A, B, C = 97, 98, 99
+
+    def L(bs, neg=False, ci=False):
+        return {"k": "lit", "s": list(bs), "neg": neg, "ci": ci}
+
+    class G:
+        def __init__(self):
+            self.budget = max_nodes
+            self.caps = []
+            self.subs = []
+            self.ncap = 0
+            self.nsub = 0
+            self.in_sub = None
+
+        def leaf(self):
+            self.budget -= 1
+            r = rnd.random()
+            if r < 0.45:
+                return L(rnd.choice([[A], [B], [A, B], [B, A], [C]]))
+            if r < 0.55:
+                return L([rnd.choice([A, B])], neg=True)
+            if r < 0.62:
+                return L([65], ci=True)
+            if r < 0.78:
+                return {"k": "cls", "c": rnd.choice(["any", "digit", "letter", "whitespace", "lower"]), "neg": rnd.random() < 0.25}
+            if r < 0.90:
+                return {"k": "anc", "c": rnd.choice(["linestart", "lineend", "filestart", "fileend", "wordstart", "wordend"]), "neg": rnd.random() < 0.2}
+            if self.caps and with_caps and rnd.random() < 0.7:
+                return {"k": "ref", "name": rnd.choice(self.caps)}
+            if self.subs and rnd.random() < 0.7:
+                return {"k": "ref", "name": rnd.choice(self.subs)}
+            return L([A])
+
+        def litkind(self, depth):
+            if self.budget <= 1 or depth > 3 or rnd.random() < 0.55:
+                return self.leaf()
+            self.budget -= 1
+            n = rnd.randint(1, 3)
+            return {"k": "seq", "es": [self.expr(depth + 1) for _ in range(n)]}
+
+        def expr(self, depth):
+            if self.budget <= 1 or depth > 3:
+                return self.leaf()
+            r = rnd.random()
+            if r < 0.30:
+                return self.litkind(depth)
+            if r < 0.52:
+                self.budget -= 1
+                mn, mx = rnd.choice([(0, 1), (0, -1), (1, -1), (0, 2), (1, 2), (2, 2), (2, -1), (1, 3)])
+                body = self.expr(depth + 1)
+                if body["k"] == "loop":
+                    body = {"k": "seq", "es": [body]}
+                few = rnd.random() < 0.4 and mn != mx
+                return {"k": "loop", "min": mn, "max": mx, "few": few, "name": "", "body": body}
+            if r < 0.68:
+                self.budget -= 1
+                l = self.litkind(depth + 1)
+                rr = self.litkind(depth + 1)
+                if rnd.random() < 0.25 and self.budget > 1:
+                    rr = {"k": "or", "l": rr, "r": self.litkind(depth + 1)}
+                return {"k": "or", "l": l, "r": rr}
+            if r < 0.78:
+                self.budget -= 1
+                items = []
+                for _ in range(rnd.randint(1, 3)):
+                    t = rnd.random()
+                    if t < 0.5:
+                        items.append(L([rnd.choice([A, B, C])]))
+                    elif t < 0.75:
+                        items.append({"k": "rng", "a": [A], "b": [B]})
+                    else:
+                        items.append({"k": "cls", "c": rnd.choice(["digit", "whitespace", "upper"]), "neg": False})
+                return {"k": "in", "items": items, "neg": rnd.random() < 0.35}
+            if r < 0.90 and with_caps and self.in_sub is None:
+                self.budget -= 1
+                body = self.litkind(depth + 1)
+                self.ncap += 1
+                name = "v%d" % self.ncap
+                node = {"k": "cap", "name": name, "body": body}
+                self.caps.append(name)
+                return node
+            if self.in_sub is None and depth <= 1:
+                self.budget -= 1
+                self.nsub += 1
+                name = "s%d" % self.nsub
+                self.in_sub = name
+                first = L([rnd.choice([A, B])])                 # a subroutine consumes before it may recurse
+                rest = [self.expr(depth + 2) for _ in range(rnd.randint(0, 2))]
+                if rnd.random() < 0.4:
+                    rest.append({"k": "loop", "min": 0, "max": 1, "few": False, "name": "", "body": {"k": "ref", "name": name}})
+                self.in_sub = None
+                self.subs.append(name)
+                return {"k": "sub", "name": name, "es": [first] + rest}
+            return self.leaf()
+
+    def no_cap_in_loop(e, inloop=False):
+        """captures under unnamed loops with min>=1 are unrolled: keep them out of loop bodies with min>=1 that are also referenced... fine: only reject capture names duplicated"""
+        return True
+
+    cases = []
+    tries = 0
+    while len(cases) < n and tries < n * 20:
+        tries += 1
+        g = G()
+        body = [g.expr(0) for _ in range(rnd.randint(1, 3))]
+        js = json.dumps(body)
+        # a back-reference or call must follow its definition in generation order: defs are only
+        # offered after they were generated, so this holds; captures inside subroutine bodies are avoided
+        sig = {A, B}
+        if '"digit"' in js or '"letter"' in js:
+            sig.add(49)
+        if '"whitespace"' in js or 'word' in js:
+            sig.add(32)
+        if 'line' in js or '"whitespace"' in js or '"any"' in js:
+            sig.add(10)
+        if '"ci": true' in js or '"upper"' in js or '"lower"' in js or '"ref"' in js:
+            sig.add(65)
+        if '[99]' in js:
+            sig.add(C)
+        sig = sorted(sig)
+        texts = []
+        for _ in range(ntexts):
+            texts.append([rnd.choice(sig) if rnd.random() < 0.85 else rnd.choice([A, B]) for _ in range(rnd.randint(1, maxlen))])
+        cases.append({"id": len(cases) + 1, "cmds": [{"kind": "find", "amt": {"k": "all"}, "body": body}], "texts": texts})
+    return cases
